@@ -399,6 +399,12 @@ def rule_lookaround_kind(col, facts):
             base = strip_casts(e[2][0])
             kind = "run" if base[0] == "var" else ("single" if base[0] == "proj" else "?")
             want = "run" if pred.endswith("c") else "single"
+            if kind == "?" or (base[0] == "call"):
+                # the look-around index is computed in another way (`end.wrapping_sub(run)` with `run` counted by an
+                # iterator chain): neither of the two shapes this rule tells apart
+                col.assumed("not-applied", "SIB-run:%s:%s:%s" % (comp, pred, last_seg(e[1])), "the look-around index `%s` is neither `index +- 1` nor the run-skipping loop variable: not decided" % show(e)[:80], f.loc(f.blocks[bb]["ts"]))
+                n += 1
+                continue
             n += 1
             col.check(R, "%s:%s:%s" % (comp, pred, last_seg(e[1])), kind == want,
                       "%s! classifies the byte at `%s`, a %s look-around, but a predicate %s consecutive separators must use a %s one" % (pred, show(e), {"run": "run-skipping", "single": "one-byte", "?": "unrecognised"}[kind], "with" if want == "run" else "without", {"run": "run-skipping (indexing!(@nextc/@prevc))", "single": "one-byte (indexing!(@next/@prev))"}[want]),
